@@ -4,8 +4,9 @@
 //	anndbnode -port P -data-dir D [-join addr | -join false] [-node-id N]
 //
 // Environment: VERIF_SETUP_DELAY_MS  sleep this long in the gate between zeroGroup.Start()
-//                                    and the registration of the catalogue consumer
-//              SIGUSR1               request a local snapshot of the zero group (skip = 0)
+//
+//	                      and the registration of the catalogue consumer
+//	SIGUSR1               request a local snapshot of the zero group (skip = 0)
 package main
 
 import (
